@@ -144,6 +144,10 @@ type Interp struct {
 	reflIters      map[int]*reflMapIter
 	syncMaps       map[Ptr]*MapObj
 	symKeySeq      int
+	abstractCRC    bool
+	crcFixedWidth  bool
+	crcMemo        map[string]*Term
+	crcStreams     map[*Term]*crcStream
 }
 
 type ChanObj struct {
